@@ -13,6 +13,7 @@ KINDS = {
     1: {"name": "Account<Uns> (unsized: u16 + List<u8>)", "disc": [9, 8, 7, 6, 5, 4, 3, 2], "borsh": False, "default": [0] * 6},
     2: {"name": "BorshAccount<Bo> (Vec<u8>)", "disc": [0xB0, 0, 0, 0, 0, 0, 0, 1], "borsh": True, "default": [0, 0, 0, 0]},
     3: {"name": "Account<Fix1> (pod, 1-byte discriminant)", "disc": [0xA5], "borsh": False, "default": [0] * 3},
+    4: {"name": "Account<FixZ> (pod, a discriminant containing zero bytes)", "disc": [7, 0, 0, 0, 0, 0, 0, 0], "borsh": False, "default": [0] * 13},
 }
 E_FUNDS = 6 << 32
 # D10: create-if-needed on a foreign-owned account whose data is shorter than the discriminant panics (slice index) in the
@@ -117,7 +118,7 @@ def gen_seeds(rng):
 
 def scenario(rng):
     p = {}
-    p["kind"] = rng.weighted([(0, 4), (1, 2), (2, 3), (3, 2)])
+    p["kind"] = rng.weighted([(0, 4), (1, 2), (2, 3), (3, 2), (4, 2)])
     k = KINDS[p["kind"]]
     w = len(k["disc"])
     p["mode"] = rng.below(2)
@@ -283,6 +284,24 @@ def must_succeed(p):
     return space <= 10240 and f["lamports"] >= minb and t["lamports"] + minb < 2 ** 63 and f["lamports"] < 2 ** 63
 
 
+def must_keep(p):
+    """a deliberately narrow sufficient condition under which CreateIfNeeded has to accept an EXISTING account untouched:
+    plain wrapper, fixed-size zero-copy type, program-owned, its own discriminant, exactly the type's size, signing and
+    writable, and a usable funder at hand (handed over or cached) although it is not needed"""
+    k = KINDS[p["kind"]]
+    t, f = p["target"], p["funder"]
+    if p["mode"] != 1 or p["seeded"] != 0 or p["fkind"] != 0 or p["kind"] not in (0, 3, 4):
+        return False
+    if not (p["argform"] in (1, 3) or p["cache"] == 1):
+        return False
+    w = len(k["disc"])
+    if t["owner"] != R.PROG or t["data"][:w] != k["disc"] or len(t["data"]) != w + len(k["default"]):
+        return False
+    if not (t["signer"] and t["writable"] and f["signer"] and f["writable"] and f["owner"] == R.SYS and not f["data"]):
+        return False
+    return t["key"] != f["key"]
+
+
 def d10_class(p):
     w = len(KINDS[p["kind"]]["disc"])
     return p["mode"] == 1 and p["target"]["owner"] != R.SYS and len(p["target"]["data"]) < w
@@ -301,6 +320,9 @@ def predicate(c, obs):
             return None
         return "panic during Init validation (an error was expected at worst)"
     if o["tag"] != 0:
+        if o["tag"] in (1, 3, 4) and must_keep(p):
+            return ("create-if-needed was refused (%s) on an account that is already initialised (program-owned, its own "
+                    "discriminant, the type's exact size): it has to be left alone and accepted" % (obs[:2],))
         if o["tag"] in (1, 3, 4) and must_succeed(p):
             return ("initialisation of a fresh system account was refused (%s) although target and funder are signers, writable, "
                     "system-owned and empty and the funder holds the whole rent-exempt minimum" % (obs[:2],))
